@@ -383,6 +383,17 @@ def op_check(op, ir, fs, profile):
     return None
 
 
+def result_kind(op, res):
+    """histogram class of an answer; `rb` answers with the rebuilt packed format itself, which is classed by
+    whether rebuild-then-build returned the input bits, not keyed by its value"""
+    if op.startswith("rb "):
+        try:
+            return "rb-unchanged" if int(res, 16) == int(op.split(" ")[1], 16) else "rb-normalized"
+        except ValueError:
+            return vlib.result_kind(res)
+    return vlib.result_kind(res)
+
+
 def nontrivial(op, res):
     if op.startswith("fe "):
         return res != "InvalidMantissaRadix"
